@@ -54,7 +54,8 @@ class ScopeMetrics:
         self._loop: AbstractEventLoop = get_event_loop()
         self._completed: Future[float] = self._loop.create_future()
 
-        if parent := parent:
+        if parent and not parent._completed.done():
+            # completed scope can't be affected by scopes created later on
             parent._nested.append(self)
 
         freeze(self)
@@ -191,7 +192,7 @@ class ScopeMetrics:
         self._completed.set_result(monotonic() - self._timestamp)
 
         # notify parent about completion
-        if parent := self._parent:
+        if (parent := self._parent) and not parent._completed.done():
             parent._complete_if_able()
 
     def log(
